@@ -6,6 +6,7 @@ import (
 	"fmt"
 	"strings"
 
+	"github.com/z7zmey/php-parser/pkg/ast"
 	"github.com/z7zmey/php-parser/pkg/token"
 )
 
@@ -98,6 +99,26 @@ func meaningDiffers(src []byte) string {
 	return ""
 }
 
+// assignRefOperand: the 7.4 tree holds `$a = & <expr>` whose right-hand side is an operator
+// expression (php7.y: `variable '=' '&' expr`; PHP itself and php5.y: `variable '=' '&' variable`,
+// so that `$a = &$b instanceof C` is `($a = &$b) instanceof C`).
+func assignRefOperand(root ast.Vertex) bool {
+	found := false
+	walkTree(root, func(n ast.Vertex, _ int) {
+		ar, ok := n.(*ast.ExprAssignReference)
+		if !ok || isNilVertex(ar.Expr) {
+			return
+		}
+		switch ar.Expr.(type) {
+		case *ast.ExprVariable, *ast.ExprArrayDimFetch, *ast.ExprPropertyFetch, *ast.ExprStaticPropertyFetch,
+			*ast.ExprFunctionCall, *ast.ExprMethodCall, *ast.ExprStaticCall, *ast.ExprNew:
+		default:
+			found = true
+		}
+	}, 0)
+	return found
+}
+
 // evalC10: parse under 5.6 and under 7.4; when both are error-free the full trees (kinds, nesting,
 // values, tokens with free-floating text, positions) must be identical.
 func evalC10(src []byte, cfg string) (o Outcome) {
@@ -143,6 +164,8 @@ func evalC10(src []byte, cfg string) (o Outcome) {
 		site := "differs:" + what + ":" + kind
 		if what == "structure" && staticMemberDim(src) {
 			site = "differs:php5-static-member-dim"
+		} else if what == "structure" && assignRefOperand(p7.Root) {
+			site = "differs:php7-assign-ref-operand"
 		}
 		if what == "tokens-or-positions" {
 			switch {
